@@ -923,6 +923,56 @@ pub static ENTRIES: &[Entry] = &[
     Entry { name: "http.r.create_join", traits: h::T_REQ, f: h::r_create_join_response },
     Entry { name: "http.r.get_pushrules", traits: h::T_REQ, f: h::r_get_pushrules_response },
     Entry { name: "http.r.get_state", traits: h::T_REQ, f: h::r_get_state_response },
+    Entry { name: "http.c.get_message_events", traits: h::T_REQ, f: h::c_get_message_events },
+    Entry { name: "http.c.get_context", traits: h::T_REQ, f: h::c_get_context },
+    Entry { name: "http.c.login", traits: h::T_REQ, f: h::c_login },
+    Entry { name: "http.c.register", traits: h::T_REQ, f: h::c_register },
+    Entry { name: "http.c.create_room", traits: h::T_REQ, f: h::c_create_room },
+    Entry { name: "http.c.upload_keys", traits: h::T_REQ, f: h::c_upload_keys },
+    Entry { name: "http.c.send_to_device", traits: h::T_REQ, f: h::c_send_to_device },
+    Entry { name: "http.c.set_read_marker", traits: h::T_REQ, f: h::c_set_read_marker },
+    Entry { name: "http.c.search_users", traits: h::T_REQ, f: h::c_search_users },
+    Entry { name: "http.c.get_keys", traits: h::T_REQ, f: h::c_get_keys },
+    Entry { name: "http.c.set_presence", traits: h::T_REQ, f: h::c_set_presence },
+    Entry { name: "http.c.upload_signatures", traits: h::T_REQ, f: h::c_upload_signatures },
+    Entry { name: "http.c.get_relations", traits: h::T_REQ, f: h::c_get_relations },
+    Entry { name: "http.c.knock_room", traits: h::T_REQ, f: h::c_knock_room },
+    Entry { name: "http.c.report_content", traits: h::T_REQ, f: h::c_report_content },
+    Entry { name: "http.f.create_invite", traits: h::T_REQ, f: h::f_create_invite },
+    Entry { name: "http.f.get_event", traits: h::T_REQ, f: h::f_get_event },
+    Entry { name: "http.f.backfill", traits: h::T_REQ, f: h::f_backfill },
+    Entry { name: "http.f.claim_keys", traits: h::T_REQ, f: h::f_claim_keys },
+    Entry { name: "http.f.get_devices", traits: h::T_REQ, f: h::f_get_devices },
+    Entry { name: "http.f.send_knock", traits: h::T_REQ, f: h::f_send_knock },
+    Entry { name: "http.f.create_leave", traits: h::T_REQ, f: h::f_create_leave },
+    Entry { name: "http.f.query_profile", traits: h::T_REQ, f: h::f_query_profile },
+    Entry { name: "http.f.exchange_invite", traits: h::T_REQ, f: h::f_exchange_invite },
+    Entry { name: "http.f.make_join", traits: h::T_REQ, f: h::f_make_join },
+    Entry { name: "http.a.query_user_id", traits: h::T_REQ, f: h::a_query_user_id },
+    Entry { name: "http.a.ping", traits: h::T_REQ, f: h::a_ping },
+    Entry { name: "http.i.bind_3pid", traits: h::T_REQ, f: h::i_bind_3pid },
+    Entry { name: "http.i.validate_email", traits: h::T_REQ, f: h::i_validate_email },
+    Entry { name: "http.i.request_email_token", traits: h::T_REQ, f: h::i_request_email_token },
+    Entry { name: "http.r.c_error", traits: h::T_REQ, f: h::r_c_error },
+    Entry { name: "http.r.uiaa", traits: h::T_REQ, f: h::r_uiaa },
+    Entry { name: "http.r.f_error", traits: h::T_REQ, f: h::r_f_error },
+    Entry { name: "http.r.get_supported_versions", traits: h::T_REQ, f: h::r_get_supported_versions },
+    Entry { name: "http.r.discover_homeserver", traits: h::T_REQ, f: h::r_discover_homeserver },
+    Entry { name: "http.r.discover_server", traits: h::T_REQ, f: h::r_discover_server },
+    Entry { name: "http.r.login_types", traits: h::T_REQ, f: h::r_login_types },
+    Entry { name: "http.r.login", traits: h::T_REQ, f: h::r_login },
+    Entry { name: "http.r.make_join", traits: h::T_REQ, f: h::r_make_join },
+    Entry { name: "http.r.state_ids", traits: h::T_REQ, f: h::r_state_ids },
+    Entry { name: "http.r.backfill", traits: h::T_REQ, f: h::r_backfill },
+    Entry { name: "http.r.keys_query", traits: h::T_REQ, f: h::r_keys_query },
+    Entry { name: "http.r.get_devices", traits: h::T_REQ, f: h::r_get_devices },
+    Entry { name: "http.r.messages", traits: h::T_REQ, f: h::r_messages },
+    Entry { name: "http.r.context", traits: h::T_REQ, f: h::r_context },
+    Entry { name: "http.r.joined_members", traits: h::T_REQ, f: h::r_joined_members },
+    Entry { name: "http.r.public_rooms", traits: h::T_REQ, f: h::r_public_rooms },
+    Entry { name: "http.r.turn_server", traits: h::T_REQ, f: h::r_turn_server },
+    Entry { name: "http.r.profile", traits: h::T_REQ, f: h::r_profile },
+    Entry { name: "http.r.hierarchy", traits: h::T_REQ, f: h::r_hierarchy },
     Entry { name: "stateres.auth_types", traits: T_JSON | T_BYTES, f: sr::auth_types },
     Entry { name: "stateres.auth_check", traits: T_JSON | T_BYTES, f: sr::auth_check_all },
     Entry { name: "stateres.resolve", traits: T_JSON | T_BYTES, f: sr::resolve_sets },
